@@ -208,6 +208,35 @@ def check_lock_pair(run, repo, world, fns):
                    "acquire/release of transaction_lock must both be guarded "
                    "by `not in_transaction`", where(mod, F.fn))
     run.floor("functions managing transaction_lock", npair, 5)
+    # cleanup order: nothing that can fail runs before the release
+    for F in sorted(fns.values(), key=lambda f: f.q):
+        mod = repo.mod(F.cls.mod)
+        for t in ast.walk(F.fn):
+            if not isinstance(t, ast.Try) or not t.finalbody:
+                continue
+
+            def releases(s_):
+                return any(isinstance(c_, ast.Call) and isinstance(
+                    c_.func, ast.Attribute) and c_.func.attr == "release"
+                    and unparse(c_.func.value).endswith(TL)
+                    for c_ in ast.walk(s_))
+            idx = [i for i, s_ in enumerate(t.finalbody) if releases(s_)]
+            if not idx:
+                continue
+            before = t.finalbody[:idx[0]]
+            risky = [c_ for s_ in before for c_ in ast.walk(s_)
+                     if isinstance(c_, ast.Call) and not unparse(
+                         c_.func).split(".")[0] in ("_LOG",) and
+                     "._log." not in unparse(c_.func) and
+                     not unparse(c_.func).startswith("self._log.")]
+            run.ob("R-LOCK-PAIR", F.q + "#release-before-other-cleanup",
+                   not risky,
+                   "`%s` runs before transaction_lock.release() in the "
+                   "cleanup: if it raises (a sequence that refuses to "
+                   "close, a callback that fails) the lock is never "
+                   "released and every later caller blocks for ever" % (
+                       unparse(risky[0]) if risky else ""),
+                   where(mod, t.finalbody[0]))
     # seq.close()
     for F in sorted(fns.values(), key=lambda f: f.q):
         if F.name != "run_sequence":
@@ -425,7 +454,12 @@ def _check_edt(run, repo, world, fns):
                     return st
                 a0 = c.args[0]
                 if _is_edt_of(world, F.cls.mod, a0, cv):
-                    return (st - {"other-tx"}) | {"edt"}
+                    if ("held", TL) in st or ("cond", "in_transaction",
+                                              True) in st:
+                        return (st - {"other-tx"}) | {"edt"}
+                    # sent outside the critical section of the command it
+                    # is meant for: anything can get in between
+                    return (st - {"edt"}) | {"other-tx"}
                 if unparse(a0) == cv:
                     return st - {"edt"}
                 return (st - {"edt"}) | {"other-tx"}
